@@ -51,6 +51,9 @@ def classify(case, detail):
             return "static-skip-hides-errors"
         if f["eff"] == "explains:fragdef-dirs":
             return "fragment-definition-directives-unvalidated"
+        if "frag-unique" in f["erules"]:
+            # which of the two definitions is used differs; every other complaint is a consequence
+            return "duplicate-fragment-name-ignored"
         keys = []
         for r in f["erules"]:
             k = None
